@@ -5,5 +5,5 @@ W=/tmp/wt/try.$$
 git -C /repo worktree add -q --detach $W HEAD || exit 9
 ( cd $W && git apply "$P" ) || { echo "patch failed to apply"; git -C /repo worktree remove --force $W; exit 9; }
 cd /verif
-VERIF_REPO=$W ./check $C --tier quick "$@" 2>&1 | grep -v "^KNOWN-FINDING" | grep -E "witness|VIOLATION|HELD|INCONCLUSIVE|tier=" | cut -c1-220 | sed -E 's/[0-9.e+-]{6,}/N/g' | sort | uniq -c | sort -rn | head -25
+VERIF_REPO=$W VERIF_EVIDENCE_DIR=/tmp/wt/reg_evidence ./check $C --tier quick "$@" 2>&1 | grep -v "^KNOWN-FINDING" | grep -E "witness|VIOLATION|HELD|INCONCLUSIVE|tier=" | cut -c1-220 | sed -E 's/[0-9.e+-]{6,}/N/g' | sort | uniq -c | sort -rn | head -25
 git -C /repo worktree remove --force $W
